@@ -79,6 +79,14 @@ class C02(DocProp):
             yield {"kind": "text", "text": " ".join(words) + "\n", "feats": ["typo-hazard"], "profile": "typo-hazard",
                    "opts": [rand_opts(r, widths=[r.randint(6, 40)], force={"ellipses": True, "smartquotes": False}),
                             rand_opts(r, widths=[r.randint(6, 40)], force={"ellipses": True, "smartquotes": r.random() < 0.5})]}
+            # unusual Unicode spaces at word edges (they count as white space when the text is split into words, and when a line is trimmed)
+            n = r.randint(6, 16)
+            words = [plain_word(r, 7) for _ in range(n)]
+            for _ in range(r.randint(1, 3)):
+                words[r.randint(1, n - 1)] = r.choice(["fin\u202f", "\u2007fig", "20\u202fkm", "\u202fx\u202f", "a\u2003b", "end\u2007"])
+            words[0] = "Start"
+            yield {"kind": "text", "text": " ".join(words) + "\n", "feats": ["space-hazard"], "profile": "space-hazard",
+                   "opts": [rand_opts(r, widths=[r.randint(8, 40)], plaintext_p=0.3), rand_opts(r, widths=[r.randint(8, 60)], plaintext_p=0.3)]}
             if r.random() < 0.1:
                 # sub-workload of the listed finding KF-C02-list-inside-footnote-definition (G-doc keeps lists out of footnotes)
                 yield {"kind": "text", "text": "[^1]: para one\n\n    - a\n    - b\n\n    " + r.choice(["```\n    code\n    ```", "> quote", "more text"]) + "\n\nx[^1]\n",
